@@ -1262,7 +1262,13 @@ def process_batch(arg):
     allow_children()
     st = common.WorkerStats()
     cases = [strip(c) for _, c in batch]
-    verdicts = evaluate(cases)
+    try:
+        verdicts = evaluate(cases)
+    except Exception:  # noqa
+        # a loaded machine can make one driver / doit child invocation time out: one more attempt before this counts
+        # as a broken harness
+        st.count('harness:batch-retried')
+        verdicts = evaluate(cases)
     shrunk = 0
     for (origin, _), case, v in zip(batch, cases, verdicts):
         st.case({'history': render(case)}, nontrivial(case, v))
